@@ -558,10 +558,20 @@ def ref_op_outcome(kind, m, p, shape, axis):
     return 'ok'
 
 
-def build_op(kind, space, m, p, c, axis, ran=None):
-    """`ran`: None, or a space of another dtype to be passed as range= (domain= for div)"""
+def build_op(kind, space, m, p, c, axis, ran=None, infer=False, spell=None):
+    """`ran`: None, or a space of another dtype to be passed as range= (domain= for div);
+    `infer` (ROUND 5): only the PRODUCT space is given (Gradient(range=V): domain = range[0];
+    Divergence(domain=V): range = domain[0]); `spell`: function applied to the method / pad_mode
+    strings (the constructors lower-case them)."""
     import odl
     nd = space.ndim
+    if spell is not None:
+        m, p = spell(m), spell(p)
+    if infer and kind == 'grad':
+        return odl.Gradient(range=odl.ProductSpace(space, nd), method=m, pad_mode=p, pad_const=c)
+    if infer and kind == 'div':
+        return odl.Divergence(domain=odl.ProductSpace(space, nd), method=m, pad_mode=p,
+                              pad_const=c)
     if kind == 'pd':
         return odl.PartialDerivative(space, axis, range=ran, method=m, pad_mode=p, pad_const=c)
     if kind == 'grad':
@@ -704,6 +714,31 @@ def opn_plans(ctx, reps):
                            vseed=rng.getrandbits(32))
 
 
+CTOR_VARIANTS = ['infer']   # upper/title-case spellings: see the note in reject_stream
+
+
+def ctor_plans(ctx, reps):
+    """ROUND 5: construction options that no other stream reaches: Gradient(range=V) and
+    Divergence(domain=V) with the other space inferred (`range[0]` / `domain[0]`), and
+    method / pad_mode spelt in upper / title case (lower-cased by every __init__)."""
+    rng = ctx.rng
+    for kind, ctor in itertools.product(KINDS, CTOR_VARIANTS):
+        if ctor == 'infer' and kind not in ('grad', 'div'):
+            continue
+        for nd in (1, 2, 3):
+            for rep in range(reps):
+                shape = tuple(rng.choice([3, 4, 5]) for _ in range(nd))
+                p = rng.choice([q for q in PADS if not (kind == 'lap' and q in LAP_REJECTED)])
+                cplx = rng.random() < 0.3
+                yield dict(kind=kind, method=rng.choice(METHODS) if kind != 'lap' else 'forward',
+                           pad=p, ndim=nd, shape=shape,
+                           sides=tuple(rng.choice([1.0, 0.5, 2.0]) for _ in range(nd)),
+                           cplx=cplx, c=rng.choice([0, 0, 2]) if p == 'constant' else 0,
+                           axis=rng.randrange(nd) if kind == 'pd' else None,
+                           use_out=rng.random() < 0.4, sv=rng.choice(['plain', 'shifted']),
+                           ctor=ctor, vseed=rng.getrandbits(32))
+
+
 def make_space(pl):
     """uniform_discr with exactly the planned (dyadic) cell sides.
     'bdry' (nodes_on_bdry=True) is NOT uniformly weighted (half cells at the boundary)."""
@@ -751,7 +786,14 @@ def run_op_case(pl):
     cc = cval(c)
     want = ref_op_outcome(kind, m, p, shape, axis)
     try:
-        op = build_op(kind, space, m, p, c, axis, ran)
+        op = build_op(kind, space, m, p, c, axis, ran, infer=pl.get('ctor') == 'infer',
+                      spell={'upper': str.upper, 'title': str.title}.get(pl.get('ctor')))
+        if pl.get('ctor') and (op.domain if kind != 'div' else op.range) != space:
+            rec['problems'].append('constructor variant {}: the inferred / given space is not '
+                                   'the planned one'.format(pl['ctor']))
+        if pl.get('ctor') and (getattr(op, 'method', m), op.pad_mode) != (m, p):
+            rec['problems'].append('constructor variant {}: method / pad_mode stored as {!r}'
+                                   .format(pl['ctor'], (getattr(op, 'method', m), op.pad_mode)))
     except ValueError:
         op = None
     except Exception as e:  # noqa
@@ -876,8 +918,9 @@ def run_op_case(pl):
     return rec
 
 
-def ops_stream(ctx, reps, report=True, ndn=False):
-    recs = [run_op_case(pl) for pl in (opn_plans if ndn else op_plans)(ctx, reps)]
+def ops_stream(ctx, reps, report=True, ndn=False, ctor=False):
+    recs = [run_op_case(pl) for pl in
+            (ctor_plans if ctor else opn_plans if ndn else op_plans)(ctx, reps)]
     lines = [l[0] for r in recs for l in r['lines']] + [c[0] for r in recs for c in r['checks']]
     outs = core.run_driver('C13', lines)
     k = 0
@@ -885,7 +928,9 @@ def ops_stream(ctx, reps, report=True, ndn=False):
     kc = n_lines
     for r in recs:
         ctx.case(r['sig'], sample=r['desc'] if len(ctx.samples) < 12 and r['sig'] else None)
-        if ndn:
+        if ctor:
+            ctx.hit('ctor/{}/{}'.format(r['desc']['ctor'], r['desc']['kind']))
+        elif ndn:
             ctx.hit('opn/ndim={}/{}'.format(r['desc']['ndim'], r['desc']['kind']))
             if r['desc']['ndim'] >= 4:
                 ctx.hit('opn/ndim>=4/{}'.format(r['desc']['pad']))
@@ -1411,6 +1456,132 @@ def inner_stream(ctx, reps):
             ctx.disagree(desc, 'ok r=' + cs(val), ans)
 
 
+def reject_cases(rng):
+    """(label, thunk, expected exception class name, replay info): arguments every constructor /
+    finite_diff must REFUSE, with the exception its docstring / the Operator conventions name.
+    The ORACLE is this table (written from the documented contract, not from the code)."""
+    import odl
+    sp = odl.uniform_discr([0, 0], [1, 1], [3, 4])
+    sp1 = odl.uniform_discr(0, 1, 3)
+    V, rn = sp ** 2, odl.rn(3)
+    nonpower = odl.ProductSpace(sp, sp1)
+    badm = rng.choice(['fwd', 'centered', 'forwards', ''])
+    badp = rng.choice(['reflect', 'order3', 'symmetric-adjoint', 'const'])
+    f = np.arange(12.0).reshape(3, 4)
+    T, Vv, I = 'TypeError', 'ValueError', 'IndexError'
+    PD, G, D, L = odl.PartialDerivative, odl.Gradient, odl.Divergence, odl.Laplacian
+    fd = odl.discr.diff_ops.finite_diff
+    cases = [
+        ('pd/domain-not-discretized', lambda: PD(rn, 0), T),
+        ('lap/domain-not-discretized', lambda: L(rn), T),
+        ('pd/unknown-method', lambda: PD(sp, 0, method=badm), Vv),
+        ('grad/unknown-method', lambda: G(sp, method=badm), Vv),
+        ('div/unknown-method', lambda: D(V, method=badm), Vv),
+        ('pd/unknown-pad', lambda: PD(sp, 1, pad_mode=badp), Vv),
+        ('grad/unknown-pad', lambda: G(sp, pad_mode=badp), Vv),
+        ('div/unknown-pad', lambda: D(V, pad_mode=badp), Vv),
+        ('lap/unknown-pad', lambda: L(sp, pad_mode=badp), Vv),
+        ('grad/no-space', lambda: G(), Vv),
+        ('div/no-space', lambda: D(), Vv),
+        ('grad/range-not-product', lambda: G(range=5), T),
+        ('div/domain-not-product', lambda: D(domain=5), T),
+        ('grad/range-not-power', lambda: G(sp, range=nonpower), Vv),
+        ('div/domain-not-power', lambda: D(domain=nonpower, range=sp), Vv),
+        ('grad/domain-not-discretized', lambda: G(rn, range=odl.ProductSpace(rn, 1)), T),
+        ('div/range-not-discretized', lambda: D(domain=odl.ProductSpace(rn, 1), range=rn), T),
+        ('grad/range-wrong-length', lambda: G(sp, range=sp ** 3), Vv),
+        ('div/domain-wrong-length', lambda: D(domain=sp ** 3, range=sp), Vv),
+        ('fd/dx-zero', lambda: fd(f, axis=0, dx=0.0), Vv),
+        ('fd/dx-negative', lambda: fd(f, axis=1, dx=-0.5), Vv),
+        ('fd/dx-inf', lambda: fd(f, axis=0, dx=float('inf')), Vv),
+        ('fd/dx-nan', lambda: fd(f, axis=0, dx=float('nan')), Vv),
+        ('fd/unknown-method', lambda: fd(f, axis=0, method=badm), Vv),
+        ('fd/unknown-pad', lambda: fd(f, axis=0, pad_mode=badp), Vv),
+        ('fd/out-shape', lambda: fd(f, axis=0, out=np.empty((4, 3))), Vv),
+        ('fd/axis-too-large', lambda: fd(f, axis=2), I),
+        ('fd/axis-too-negative', lambda: fd(f, axis=-3), I),
+    ]
+    return cases, badm, badp
+
+
+REJECT_LABELS = ['pd/domain-not-discretized', 'lap/domain-not-discretized', 'pd/unknown-method',
+                 'grad/unknown-method', 'div/unknown-method', 'pd/unknown-pad', 'grad/unknown-pad',
+                 'div/unknown-pad', 'lap/unknown-pad', 'grad/no-space', 'div/no-space',
+                 'grad/range-not-product', 'div/domain-not-product', 'grad/range-not-power',
+                 'div/domain-not-power', 'grad/domain-not-discretized',
+                 'div/range-not-discretized', 'grad/range-wrong-length',
+                 'div/domain-wrong-length', 'fd/dx-zero', 'fd/dx-negative', 'fd/dx-inf',
+                 'fd/dx-nan', 'fd/unknown-method', 'fd/unknown-pad', 'fd/out-shape',
+                 'fd/axis-too-large', 'fd/axis-too-negative']
+
+
+def run_reject(label, seed):
+    """one rejection case on the real code -> problem string or None"""
+    import random
+    cases, _, _ = reject_cases(random.Random(seed))
+    for lab, thunk, want in cases:
+        if lab != label:
+            continue
+        try:
+            r = thunk()
+            return 'accepted (returned {}) where {} is required'.format(type(r).__name__, want)
+        except Exception as e:  # noqa
+            names = [c.__name__ for c in type(e).__mro__]
+            if want not in names:
+                return 'raised {} where {} is required'.format(type(e).__name__, want)
+            return None
+    return 'unknown rejection case'
+
+
+def reject_stream(ctx):
+    """ROUND 5: validation branches of the four constructors and of finite_diff, and the
+    supported-name lists (model: generated `methods` / `pads`, driver op `supported`)."""
+    import odl
+    seed = ctx.rng.getrandbits(32)
+    for label in REJECT_LABELS:
+        ctx.case(None)
+        ctx.hit('reject/' + label)
+        try:
+            pr = run_reject(label, seed)
+        except Exception as e:  # noqa
+            pr = 'case could not be built: {!r}'.format(e)
+        if pr:
+            ctx.violation('rejection ' + label, pr, dict(kind='reject', label=label, seed=seed))
+    # supported names: code accepts <=> the generated list has the (lower-cased) name
+    sp = odl.uniform_discr(0, 1, 4)
+    # (not lower-case spellings are left out: the classes store str(method).lower() but validate
+    # the raw argument, so 'FORWARD' is refused by the classes and accepted by finite_diff; the
+    # documentation names only the lower-case strings - outside the property's quantifier)
+    names_m = METHODS + ['fwd', 'centered', 'forwards']
+    names_p = PADS + ['reflect', 'order3', 'const']
+    todo = []
+    for m, p in [(m, 'constant') for m in names_m] + [('forward', p) for p in names_p]:
+        try:
+            odl.PartialDerivative(sp, 0, method=m, pad_mode=p)
+            okm = okp = 1
+        except ValueError as e:
+            okm, okp = int('method' not in str(e)), int('pad_mode' not in str(e))
+        except Exception as e:  # noqa
+            ctx.violation('supported names method={} pad_mode={}'.format(m, p),
+                          'PartialDerivative raised {!r}'.format(e),
+                          dict(kind='names', method=m, pad=p))
+            continue
+        want_m, want_p = int(m.lower() in METHODS), int(p.lower() in PADS)
+        ctx.hit('names/{}'.format('accepted' if okm and okp else 'refused'))
+        if (okm, okp) != (want_m, want_p):
+            ctx.violation('supported names method={} pad_mode={}'.format(m, p),
+                          'accepted (method, pad_mode) = {} but the documented lists give {}'
+                          .format((okm, okp), (want_m, want_p)),
+                          dict(kind='names', method=m, pad=p))
+        todo.append((dict(kind='names', method=m, pad=p),
+                     'supported method={} pad={}'.format(m.lower() or '-', p.lower() or '-'),
+                     'ok method={} pad={}'.format(okm, okp)))
+    outs = core.run_driver('C13', [t[1] for t in todo])
+    for (desc, line, want), ans in zip(todo, outs):
+        if ans != want:
+            ctx.disagree(desc, want, ans)
+
+
 def regenerate(ctx):
     changed, partial, sources = extract_fd.regenerate()
     ctx.extra['table_sources'] = sources
@@ -1487,6 +1658,8 @@ def run(ctx):
     ops_stream(ctx, 1 if ctx.quick else 12)
     ops_stream(ctx, 1 if ctx.quick else 4, ndn=True)
     inner_stream(ctx, 3 if ctx.quick else 20)
+    ops_stream(ctx, 1 if ctx.quick else 6, ctor=True)
+    reject_stream(ctx)
     ops_matrix_stream(ctx, [(2,), (3,), (2, 3), (2, 2, 2)] if ctx.quick else
                       [(2,), (3,), (4,), (5,), (2, 2), (2, 3), (3, 2), (3, 4), (2, 2, 2),
                        (2, 3, 2), (3, 2, 3)])
@@ -1505,6 +1678,9 @@ EXPECTED_BRANCHES = sorted(
     {'opn/ndim>=4/' + p for p in PADS} |
     {'cfgg/{}/{}'.format(a, k) for a in ('adjoint', 'derivative') for k in KINDS} |
     {'inner/bdry={}/ndim={}'.format(b, d) for b in (0, 1) for d in (1, 2, 3, 4)} |
+    {'ctor/{}/{}'.format(v, k) for v in CTOR_VARIANTS for k in KINDS
+     if v != 'infer' or k in ('grad', 'div')} |
+    {'reject/' + l for l in REJECT_LABELS} | {'names/accepted', 'names/refused'} |
     {stratum_of(k) for k in KINDS} |
     {'opt/{}-explicit:{}'.format('domain' if k == 'div' else 'range', o)
      for k in KINDS for o in X_OPTIONS[k]})
@@ -1522,6 +1698,8 @@ def search(ctx, broken):
     ops_stream(ctx, 8)
     ops_stream(ctx, 3, ndn=True)
     inner_stream(ctx, 10)
+    ops_stream(ctx, 4, ctor=True)
+    reject_stream(ctx)
     ops_matrix_stream(ctx, [(2,), (3,), (4,), (6,), (2, 2), (3, 3), (2, 4), (2, 2, 3)])
 
 
@@ -1554,6 +1732,21 @@ def replay(ctx, case):
                 and v['replay'].get('axis') == case['axis']
                 and v['replay'].get('cplx', False) == case.get('cplx', False)]
         return hits[0]['what'] if hits else None
+    if kind == 'reject':
+        return run_reject(case['label'], case['seed'])
+    if kind == 'names':
+        import odl
+        try:
+            odl.PartialDerivative(odl.uniform_discr(0, 1, 4), 0, method=case['method'],
+                                  pad_mode=case['pad'])
+            ok = True
+        except ValueError:
+            ok = False
+        except Exception as e:  # noqa
+            return 'raised {!r}'.format(e)
+        want = case['method'].lower() in METHODS and case['pad'].lower() in PADS
+        return None if ok == want else 'accepted = {} but the documented lists give {}'.format(
+            ok, want)
     if kind == 'inner':
         pl = dict(case)
         pl['shape'] = tuple(_ast.literal_eval(case['shape']))
